@@ -78,8 +78,9 @@ def main():
                 ck.count("farkas-offered")
                 if ans[k].get("f%d" % c) != "true":
                     neg = ans[k].get("fn%d" % c) == "true"
-                    path = "ensureray-after-presolve" if (cfg.get("ensureray", 0) == 1 and cfg.get("simplifier", 3) != 0) else "direct"
-                    ck.violation("farkas-%s:%s:%s" % ("negated" if neg else "rejected", path, "+".join(tags) or "plain"),
+                    # where the vector was computed: representation and algorithm type the solver ended in
+                    site = "rep%s:alg%s" % (ru.get("rep", "?"), ru.get("alg", "?"))
+                    ck.violation("farkas-%s:%s%s" % ("negated" if neg else "rejected", site, ":polish" if "polish" in tags else ""),
                                  "the Farkas vector offered with status %s is not a proof of infeasibility of the user's LP (rejected by check_farkas on the 1e6-box) under %s" % (st, cfg),
                                  sc.replay_of(p, cfg, ru, {"theorem": "Cert_Proofs.farkas_box_sound"}))
             if "ray" in ru:
